@@ -229,9 +229,9 @@ fn gen(thorough: bool, seeds: Vec<(String, Vec<u8>, bool)>) -> impl Fn(&mut Enum
                     }
                 }
             }
-            // 3 deviations (thorough): all triples inside one of the first three program headers
-            // over the fields the loader reads
-            if thorough {
+            // 3 deviations: all triples inside one of the first three program headers over the
+            // fields the loader reads
+            {
                 for g in groups.iter().take(3) {
                     let g: Vec<&&Field> = g.iter().filter(|f| f.name.starts_with("ph") && !f.name.ends_with("p_paddr") && !f.name.ends_with("p_align")).collect();
                     for i in 0..g.len() {
@@ -252,6 +252,47 @@ fn gen(thorough: bool, seeds: Vec<(String, Vec<u8>, bool)>) -> impl Fn(&mut Enum
                                         }
                                     }
                                 }
+                            }
+                        }
+                    }
+                }
+            }
+            // 2 deviations anywhere (thorough): every pair of fields of the file that the groups
+            // above did not already pair
+            if thorough {
+                let in_group = |a: &Field, b: &Field| -> bool {
+                    let (ha, ta) = a.name.split_once('.').unwrap_or(("", a.name.as_str()));
+                    let (hb, tb) = b.name.split_once('.').unwrap_or(("", b.name.as_str()));
+                    let ph = |h: &str| h.starts_with("ph");
+                    if ph(ha) && ph(hb) {
+                        return ha == hb || (ta == tb && !["p_paddr", "p_align", "p_flags"].contains(&ta));
+                    }
+                    let eph = ["e_phoff", "e_phnum", "e_phentsize"];
+                    let esh = ["e_shoff", "e_shnum", "e_shentsize", "e_shstrndx"];
+                    if eph.contains(&a.name.as_str()) && eph.contains(&b.name.as_str()) {
+                        return true;
+                    }
+                    if esh.contains(&a.name.as_str()) && esh.contains(&b.name.as_str()) {
+                        return true;
+                    }
+                    let st = |n: &str| n.contains("(symtab)") || n.contains("(strtab)");
+                    st(&a.name) && st(&b.name)
+                };
+                for i in 0..fields.len() {
+                    for j in i + 1..fields.len() {
+                        let (fa, fb) = (&fields[i], &fields[j]);
+                        if in_group(fa, fb) {
+                            continue;
+                        }
+                        for a in &values(fa, flen) {
+                            for b in &values(fb, flen) {
+                                if !e.next() {
+                                    continue;
+                                }
+                                let mut m = bytes.clone();
+                                put(&mut m, fa, *a);
+                                put(&mut m, fb, *b);
+                                load(e, name, &m, &format!("{}={:#x},{}={:#x}", fa.name, a, fb.name, b), "pair(any two fields)");
                             }
                         }
                     }
@@ -315,7 +356,7 @@ pub fn run(tier: Tier) -> i32 {
         run.findings.merge(f);
         run.cov("devlike_profile_run", summary);
     }
-    enum_evidence(&mut run, &out, "one case = a seed (3 bundled binaries, 6 generated files incl. TLS / dynamic / RELRO / page-sized bss) with 0, 1 or 2 (thorough: also 3 inside one of the first three program headers) header fields replaced by a value of the boundary alphabet {0,1,2,0x7F,0xFF,0x1000,0xFFFF,2^24,2^31-1,2^31,2^32,2^40,2^63-1,2^63,2^64-0x1000,2^64-1,len-1,len,len+1} plus every defined type constant (pairs: inside one program header, the same field in two program headers, the e_ph* group, the e_sh* group, the symtab/strtab section headers), or truncated (generated files: every length; bundled: every length inside header, program headers, section headers, symbol tables); loaded in a worker with catch_unwind, a 1 GiB single-allocation guard, RLIMIT_AS and a hang watchdog; states = distinct (seed, mutation); distinct_nontrivial = distinct (seed, mutation, outcome, error text)");
+    enum_evidence(&mut run, &out, "one case = a seed (3 bundled binaries, 6 generated files incl. TLS / dynamic / RELRO / page-sized bss) with 0, 1, 2 or (inside one of the first three program headers) 3 header fields replaced by a value of the boundary alphabet {0,1,2,0x7F,0xFF,0x1000,0xFFFF,2^24,2^31-1,2^31,2^32,2^40,2^63-1,2^63,2^64-0x1000,2^64-1,len-1,len,len+1} plus every defined type constant (pairs: thorough = every two fields of the file; quick = inside one program header, the same field in two program headers, the e_ph* group, the e_sh* group, the symtab/strtab section headers), or truncated (generated files: every length; bundled: every length inside header, program headers, section headers, symbol tables); loaded in a worker with catch_unwind, a 1 GiB single-allocation guard, RLIMIT_AS and a hang watchdog; states = distinct (seed, mutation); distinct_nontrivial = distinct (seed, mutation, outcome, error text)");
     run.cov("seeds", json!(nseeds));
     run.guard("cases", out.cases >= 20_000 || out.capped, format!("{} inputs", out.cases));
     let okc = out.counters.get("ok").cloned().unwrap_or(0);
